@@ -280,8 +280,13 @@ def _worker_env(prop, w):
     return env
 
 
+def out_dir():
+    """where evidence and new replay files go (ZTV_OUT redirects them, e.g. while a seeded change is evaluated)"""
+    return os.environ.get('ZTV_OUT') or boot.VERIF_DIR
+
+
 def write_replay(prop_id, sig, part, case, message):
-    d = os.path.join(boot.VERIF_DIR, 'replays', prop_id)
+    d = os.path.join(out_dir(), 'replays', prop_id)
     os.makedirs(d, exist_ok=True)
     h = '%016x' % case_hash([sig, part, case])
     path = os.path.join(d, 'viol-%s.json' % h[:12])
@@ -500,7 +505,7 @@ def _merge(merged, st):
 
 
 def _write_evidence(prop, tier, seed, merged, wall, nviol, harness_errors):
-    ev_dir = os.path.join(boot.VERIF_DIR, 'evidence')
+    ev_dir = os.path.join(out_dir(), 'evidence')
     os.makedirs(ev_dir, exist_ok=True)
     ev = merged.evaluations or 1
     cov = {
